@@ -230,6 +230,12 @@ def search(ctx, boost=1, focus=()):
         zero, a, b = lattice(rng, dyadic=(k % 2 == 0))
         if (k // 4) % 3 == 2:      # an integer lattice
             zero, a, b = np.round(zero), np.round(a), np.round(b)
+        if k % 7 == 5:
+            # lattice vectors exactly parallel to the frame axes, of unequal length and sign, in both orientations (a along x and
+            # b along y as well as the other way round)
+            l1, l2 = float(rng.choice([8.0, -7.5, 5.0, 12.25])), float(rng.choice([5.0, 3.0, -9.5, 6.0]))
+            a, b = (np.array([0.0, l1]), np.array([l2, 0.0])) if (k // 7) % 2 == 0 else (np.array([l1, 0.0]), np.array([0.0, l2]))
+            ctx.count("axis_parallel")
         layout = ("mgrid", "list", "list", "list2")[k % 4]
         idx, flat = gen_indices(rng, "list" if layout == "list2" else layout, tiny=True)
         if layout == "list2":
